@@ -71,6 +71,10 @@ func (r *decompressor) Reset(under io.Reader, _ []byte) error {
 	r.peekSize = 0
 	r.eof = false
 	r.err = nil
+	// forget the previous stream's output: nothing of it may be delivered or
+	// referenced by the next stream
+	r.writePos = 0
+	r.readPos = 0
 	r.state.reset()
 	return nil
 }
